@@ -40,6 +40,7 @@ func genC07(t *rapid.T) C07Case {
 		cfg.Methods = true
 		cfg.Goto = true
 		cfg.NoSameNameInit = gate("c05-same-name-init") || gate("c07-same-name-init")
+		cfg.SameNameForOK = true // the known findings concern local initialisers; for bounds are analysed correctly
 		cfg.NoFuncInForBounds = gate("c05-func-in-for-bounds")
 		cfg.NoFuncInTargetIndex = gate("c05-func-in-target")
 		// Undef1/Undef2 are never assigned anywhere: reads of them are the expected type-2 warnings
